@@ -114,8 +114,30 @@ func H06_inert() {
 // H06_resume: after Suspend and Resume, input and resize delivery work again.
 func H06_resume() {
 	e := h01New("xterm-256color", 3, 1, false)
-	_ = e.s.Suspend()
-	_ = e.s.Resume()
+	cycles := 1 + vsymChoice("cycles", vsymParam("maxcycles", 2))
+	for c := 0; c < cycles; c++ {
+		_ = e.s.Suspend()
+		// what a drawing goroutine may still call while the screen is suspended: none of it may hang
+		switch vsymChoice("while", 6) {
+		case 1:
+			x := vsymInt("x")
+			vsymAssume(vsymAnd(x >= 0, x < 3))
+			e.s.SetContent(x, 0, 'y', nil, StyleDefault)
+			e.s.Show()
+		case 2:
+			e.s.Sync()
+		case 3:
+			e.s.Clear()
+			e.s.Show()
+		case 4:
+			e.s.Fill('z', StyleDefault)
+			e.s.Show()
+		case 5:
+			e.s.ShowCursor(1, 0)
+			e.s.Show()
+		}
+		_ = e.s.Resume()
+	}
 	for e.s.HasPendingEvent() {
 		e.s.PollEvent()
 	}
